@@ -181,10 +181,12 @@ def corpus_cases():
 # implementation side
 
 
-def run_impl(case, Event, flood, labels):
-    """Returns (views of the constructed input, views of the output, 'input not modified' verdict)."""
+def run_impl(case, Event, flood, labels, objs=None):
+    """Returns (views of the constructed input, views of the output, 'input not modified' verdict).
+    `objs` (round 3, harness/c10_hist.py): live Event objects of a call sequence instead of fresh ones."""
     _, p, evs = case
-    objs = [mk_event(Event, t, d, copy.deepcopy(x), eid=i) for i, (t, d, x) in enumerate(evs)]
+    if objs is None:
+        objs = [mk_event(Event, t, d, copy.deepcopy(x), eid=i) for i, (t, d, x) in enumerate(evs)]
     before_ids = [id(o) for o in objs]
     before_data_ids = [id(o.data) for o in objs]
     snapshot = copy.deepcopy(objs)
@@ -205,8 +207,10 @@ def run_impl(case, Event, flood, labels):
         modified = f"input event {i} changed: {snapshot_raw[i]} -> {dict(objs[i])}"
     elif [id(o.data) for o in objs] != before_data_ids:
         modified = "an input event's data object was replaced"
-    elif any(o is i for o in out for i in objs):
+    elif set(before_ids) & {id(o) for o in out}:
         modified = "an output event is an input object (later edits would alias)"
+    elif set(before_data_ids) & {id(o.data) for o in out}:
+        modified = "an output event shares its data object with an input event (later edits would alias)"
     return inp, [ev_view(e, labels) for e in out], modified
 
 
@@ -350,6 +354,9 @@ def main(argv=None):
         if len(ck.samples) < 5 and len(out) < len(evs) and len(evs) >= 3 and bad is None:
             ck.sample({"stream": stream, "pulsetime_s": p, "events_us_rel(id,ts,dur,label)": rel(inp),
                        "impl_us_rel": rel(out)})
+
+    from . import c10_hist          # round 3: the query layer, call sequences on live objects, >= 10 001 events
+    c10_hist.run(ck, sys.modules[__name__], Event, flood, labels, have_driver)
 
     if have_driver:
         model = common.run_driver("C10", wire)
